@@ -223,3 +223,61 @@ def ret_values(fn):
 
 def fmt_pos(fn, pos):
     return fn.loc(pos)
+
+
+# ------------------------------------------------ constant-returning callees
+def const_return_summary(fx):
+    """callee key (fk) -> constant int, for functions all of whose returns yield the
+    same literal (e.g. the disabled variants `bool buildDAG() { return false; }`)"""
+    cache = getattr(fx, "_const_ret", None)
+    if cache is not None:
+        return cache
+    cache = {}
+    for f in fx.functions:
+        if f["kind"] == "pattern" or f.get("ret") not in ("bool", "int", "unsigned int"):
+            continue
+        vals = set()
+        n = 0
+        ok = True
+        for b in f["blocks"]:
+            for e in b["ev"]:
+                if e["k"] == "ret":
+                    n += 1
+                    t = e.get("e")
+                    if isinstance(t, dict) and t.get("k") in ("bool", "int"):
+                        vals.add(int(t["v"]))
+                    else:
+                        ok = False
+                elif e["k"] in ("call", "assign", "atomic", "ctor", "new", "delete"):
+                    ok = False      # only side-effect free bodies
+        if ok and n >= 1 and len(vals) == 1:
+            # key without the parameter signature suffix used by the extractor
+            cache[f["key"]] = vals.pop()
+    fx._const_ret = cache
+    return cache
+
+
+def const_call_env(fx, fn):
+    """env for decide(): canonical string of every call in fn whose callee is a
+    constant-returning function -> that constant"""
+    summ = const_return_summary(fx)
+    if not summ:
+        return {}
+    byqn = getattr(fx, "_const_ret_qn", None)
+    if byqn is None:
+        byqn = {}
+        for f in fx.functions:
+            if f["key"] in summ:
+                byqn.setdefault(f["qn"], []).append((f["key"], summ[f["key"]]))
+        fx._const_ret_qn = byqn
+    env = {}
+    al = fn.aliases()
+    for _, e in fn.events(lambda e: e.get("k") == "call" and e.get("fk")):
+        cands = byqn.get(e.get("fn"))
+        if not cands:
+            continue
+        vs = {v for k, v in cands if k.startswith(e["fk"] + "(")}
+        if len(vs) == 1:
+            env[S(e, al)] = next(iter(vs))
+            env[S(e)] = next(iter(vs))
+    return env
